@@ -251,6 +251,10 @@ func propC10(w *World, r *Report) {
 	r.Floor("gidsort", 12)
 	checkNewGidOk(w, r, fns)
 	checkFDIndex(w, r)
+	checkFDEvery(w, r)
+	checkFreshResult(w, r, fns)
+	RunRangeCopy(w, r, w.LibFuncs())
+	RunControl(r, "rangecopy", "ctlRangeCopyBad", RunRangeCopy)
 	RunStaleCopy(w, r, w.LibFuncs())
 	RunControl(r, "stalecopy", "ctlStaleCopy", RunStaleCopy)
 	RunFlagReduce(w, r, w.LibFuncs(), "library")
